@@ -343,14 +343,17 @@ Proof.
 Qed.
 
 (* ---- every operation of the alphabet (move_p: see Memfs/MoveWf.v) ---- *)
-From RV Require Import Memfs.Step.
+From RV Require Import Memfs.Walk Memfs.WalkOps Memfs.Step.
 
 Lemma lift_unit_fst r : (lift_unit r).1 = r.1.
 Proof. destruct r as [m [u|e]]; done. Qed.
 Lemma lift_path_fst r : (lift_path r).1 = r.1.
 Proof. destruct r as [m [u|e]]; done. Qed.
 
-Definition is_move (o : op) : bool := match o with OMoveP _ _ => true | _ => false end.
+(* operations whose WF-preservation is not yet a theorem here: the move_p worklist loop and the
+   traversal-based mutators (copy / chmod / chown / mkfile_m) *)
+Definition is_move (o : op) : bool :=
+  match o with OMoveP _ _ | OCopy _ _ _ | OChmod _ _ | OChown _ _ | OMkfileM _ _ => true | _ => false end.
 
 Lemma done_fst {A B} (x : A * B) m' r : Done x = Done (m', r) → x.1 = m'.
 Proof. intros H. by simplify_eq. Qed.
@@ -378,6 +381,9 @@ Proof.
   - (* remove_all *) destruct (remove_all_op env m s) as [r0| |] eqn:E; try discriminate.
     apply done_fst in Hs. rewrite <- Hs, lift_unit_fst. by eapply remove_all_wf.
   - (* symlink *) apply done_fst in Hs. rewrite <- Hs, lift_path_fst. by apply symlink_wf.
+  - (* listing *) destruct (listing_op env m k s) as [[ps|e]| |]; try discriminate; apply done_fst in Hs; cbn in Hs; subst; exact HW.
+  - (* entries *) destruct (resolve env m s) as [p|e]; [|apply done_fst in Hs; cbn in Hs; subst; exact HW].
+    destruct (walk (m_ents m) wo no_pre p) as [[evs| |]|e]; try discriminate; apply done_fst in Hs; cbn in Hs; subst; exact HW.
 Qed.
 
 (* reachability: every existing path is reached from the root through listed names *)
